@@ -160,6 +160,13 @@ def run(ctx):
             for use in ('flip', 'library'):
                 for _ in range(max(3, int(3 * B))):
                     do(ctx, 'ctor_fresh', [be, what, rng.randint(1, 4), rng.randrange(10 ** 6), use], nontrivial=('cf', be, what, use, ctx.res.evaluations))
+    # LONG lists: more rows / terms / pairs than any block, chunk or vector width (255, 256, 257, 300, 1025 rows; 65 x 65 and 40 x 130 term pairs)
+    for L in gen.LONG:
+        for be in backends:
+            N = rng.randint(1, 4)
+            n = rng.randint(1, N)
+            mask = None if n == N else gen.rmask(rng, N, n)[0]
+            do(ctx, 'tr_corr', [be, gen.rmap(rng, ctx.model, n), mask, gen.rplist(rng, N, L)], nontrivial=('long', be, L))
     # LARGE registers: byte, word and cache-line boundaries of every packed or vectorised representation (8, 9, 16, 17, 33, 64, 65 qubits); model correspondence only
     for N in gen.BIG:
         for be in backends:
@@ -177,9 +184,10 @@ def run(ctx):
         do(ctx, 'tr_corr', [be, m, mask, l, lay], nontrivial=(be, str(m), str(mask), str(l)) if _nt(m, l) else None, sample=True)
         if mask is None and N <= 4:
             do(ctx, 'tr_dense', [be, m, l])
-        if mask is not None:
-            do(ctx, 'embed_corr', [be, N, m, mask])
-            do(ctx, 'masked_is_embedded', [be, N, m, mask, l])
+        # (a mask that selects EVERY qubit is a mask too: no identity wire is left)
+        emask = mask if mask is not None else [1] * N
+        do(ctx, 'embed_corr', [be, N, m, emask])
+        do(ctx, 'masked_is_embedded', [be, N, m, emask, l])
         ctx.res.count('N%d_n%d' % (N, n))
     for _ in range(int(120 * B)):
         N = rng.randint(1, 5)
